@@ -3,10 +3,12 @@
 // nhsim, snapshot directory scenarios (C16): hosts lose power at a seeded file-system
 // operation while a snapshot is being saved, exported, received from the leader, shrunk or
 // compacted. After every power loss the host is restarted and three observations are recorded:
-//   CrashLayout  the snapshot directory and the snapshot record of the log store as the power
-//                loss left them (listed after NewNodeHost, before StartReplica),
-//   Layout       the same after StartReplica returned (snapshotter.processOrphans has run),
-//   Recovered    whether the replica came back at or beyond the recorded snapshot.
+//
+//	CrashLayout  the snapshot directory and the snapshot record of the log store as the power
+//	             loss left them (listed after NewNodeHost, before StartReplica),
+//	Layout       the same after StartReplica returned (snapshotter.processOrphans has run),
+//	Recovered    whether the replica came back at or beyond the recorded snapshot.
+//
 // spec/SnapshotDirTrace.tla judges them with the layout predicates of spec/SnapshotDir.tla.
 package dragonboat
 
